@@ -519,5 +519,11 @@ def mon_c20(c):
             _same_as_fresh(c, 'B.', 'fB.', 'run B interleaved with run A'))
 
 
+def mon_c06_stream(c):
+    """stream half of C06: an idle stream (Pending, no wake-up) with a releasable function = the C05 stall test"""
+    w = mon_c05(c)
+    return w if (w and 'releasable' in w) else None
+
+
 def mon_c06_full(c):
-    return mon_c06(c) or mon_c06_edges(c)
+    return mon_c06(c) or mon_c06_stream(c) or mon_c06_edges(c)
